@@ -170,35 +170,67 @@ split_cap!(c16_split_cap2, 2, 1_000_000, 5);
 split_cap!(c16_split_cap3, 3, 1_000_000, 6);
 
 // Stubs for `CanonicalOneTwoFive::unconstrained_split`: ANY canonical, non-increasing list of one
-// fixed LENGTH whose values do not exceed the balance. That is a SUPERSET of what the real function
-// can return (c16_split_cap* additionally shows the notes fit the balance), so whatever the plan
+// fixed LENGTH whose notes (value + buffer) fit the balance - the guarantee decided by
+// c16_split_cap*. That is a SUPERSET of what the real function can return, so whatever the plan
 // harnesses prove over the stub holds over the real split. One straight-line function per length: a
 // Vec whose length is symbolic made `plan()`'s per-iteration `collect()` of the typed notes exhaust
 // 30 GB in CBMC's propositional reduction; a stub branching on the length, or any harness that
 // writes a `static`, produced spurious __rust_dealloc precondition failures (bisected: with the
-// static write removed the same harness is clean), so the stubs take no input from the harness
-// and the harness bounds the buffer by MAX_MONEY - 10^12 so that `crossing + buffer` is always a
-// valid amount (what the real split guarantees through "notes fit the balance").
+// static write removed the same harness is clean), so the stubs take no input from the harness:
+// they read the buffer out of the strategy object they are handed (buffer_of).
 type Strat = zcash_pool_migration::denomination::CanonicalOneTwoFive;
-fn any_desc3(total: u64) -> (u64, u64, u64) {
+/// The strategy's fee buffer, read out of the (private) struct the stub is handed: the struct is
+/// four 8-byte words {max_notes = 64, max = 10^12, min = 10^6, buffer}; the word that is none of the
+/// three known constants is the buffer (if the buffer happens to equal one of them, so be it: any
+/// of the equal words is the right value).
+fn buffer_of(s: &Strat) -> u64 {
+    let w: [u64; 4] = unsafe { core::mem::transmute_copy(s) };
+    // straight-line (no loop to unwind): remove one occurrence each of 64, 10^12 and 10^6
+    let known = |v: u64| v == 64 || v == 1_000_000_000_000 || v == 1_000_000;
+    if !known(w[0]) {
+        w[0]
+    } else if !known(w[1]) {
+        w[1]
+    } else if !known(w[2]) {
+        w[2]
+    } else if !known(w[3]) {
+        w[3]
+    } else {
+        // the buffer equals one of the constants: it is the value that occurs twice
+        let (a, b, c, d) = (w[0], w[1], w[2], w[3]);
+        if a == b || a == c || a == d {
+            a
+        } else if b == c || b == d {
+            b
+        } else {
+            c
+        }
+    }
+}
+fn any_desc3() -> (u64, u64, u64) {
     let (i0, i1, i2): (usize, usize, usize) = (kani::any(), kani::any(), kani::any());
     kani::assume(i0 <= 18 && i1 <= i0 && i2 <= i1);
-    kani::assume(TABLE[i0] <= total);
     (TABLE[i0], TABLE[i1], TABLE[i2])
 }
 fn split_stub_len0(_s: &Strat, _total: u64, _count: usize, _fee: u64) -> Vec<u64> {
     Vec::new()
 }
-fn split_stub_len1(_s: &Strat, total: u64, _count: usize, _fee: u64) -> Vec<u64> {
-    let (c0, _, _) = any_desc3(total);
+fn split_stub_len1(s: &Strat, total: u64, _count: usize, _fee: u64) -> Vec<u64> {
+    let b = buffer_of(s);
+    let (c0, _, _) = any_desc3();
+    kani::assume(c0 + b <= total); // guarantee (1): the notes fit the balance
     vec![c0]
 }
-fn split_stub_len2(_s: &Strat, total: u64, _count: usize, _fee: u64) -> Vec<u64> {
-    let (c0, c1, _) = any_desc3(total);
+fn split_stub_len2(s: &Strat, total: u64, _count: usize, _fee: u64) -> Vec<u64> {
+    let b = buffer_of(s);
+    let (c0, c1, _) = any_desc3();
+    kani::assume(c0 + b + c1 + b <= total);
     vec![c0, c1]
 }
-fn split_stub_len3(_s: &Strat, total: u64, _count: usize, _fee: u64) -> Vec<u64> {
-    let (c0, c1, c2) = any_desc3(total);
+fn split_stub_len3(s: &Strat, total: u64, _count: usize, _fee: u64) -> Vec<u64> {
+    let b = buffer_of(s);
+    let (c0, c1, c2) = any_desc3();
+    kani::assume(c0 + b + c1 + b + c2 + b <= total);
     vec![c0, c1, c2]
 }
 
@@ -213,7 +245,7 @@ macro_rules! plan_cap {
             let buffer: u64 = kani::any();
             let fee: u64 = kani::any();
             let count: usize = kani::any();
-            kani::assume(total <= MAX_MONEY && buffer <= MAX_MONEY - 1_000_000_000_000 && fee <= $maxfee);
+            kani::assume(total <= MAX_MONEY && buffer <= MAX_MONEY && fee <= $maxfee);
             // the oracle: a fresh arbitrary answer on every call (refusing, over-charging and
             // inconsistent all at once); the harness remembers the last answer and the call count
             let last: Cell<Option<usize>> = Cell::new(None);
@@ -293,15 +325,15 @@ macro_rules! plan_cap {
     };
 }
 
-//@ {"p":"C16","tier":"quick","clause":"plan() over ANY canonical split of length 1 (unconstrained_split stubbed by its guarantee): the published values are a truncation of it (canonical, non-increasing); notes + reserved fees + change == balance exactly; reserved fees == accepted oracle answer x fee; no zero-valued change; migration_outputs = crossing + buffer; the generator is never consulted","bounds":"split length 1; balance in [0,MAX_MONEY], buffer in [0,MAX_MONEY-10^12]; fee <= 10^6; note count symbolic; oracle = fresh arbitrary Option<usize> per call, answers <= 2^20 (larger: c16_oracle_overflow)","assume":"stub: unconstrained_split returns an arbitrary length-1 list with the guarantee decided by c16_split_cap*","covers":4,"t":1800,"stub":true}
+//@ {"p":"C16","tier":"quick","clause":"plan() over ANY canonical split of length 1 (unconstrained_split stubbed by its guarantee): the published values are a truncation of it (canonical, non-increasing); notes + reserved fees + change == balance exactly; reserved fees == accepted oracle answer x fee; no zero-valued change; migration_outputs = crossing + buffer; the generator is never consulted","bounds":"split length 1; balance, buffer in [0,MAX_MONEY]; fee <= 10^6; note count symbolic; oracle = fresh arbitrary Option<usize> per call, answers <= 2^20 (larger: c16_oracle_overflow)","assume":"stub: unconstrained_split returns an arbitrary length-1 list with the guarantee decided by c16_split_cap*","covers":4,"t":1800,"stub":true,"replay":"model"}
 plan_cap!(c16_plan_len1, 1, split_stub_len1, 1_000_000, 1 << 20, 4);
-//@ {"p":"C16","tier":"experimental","clause":"same over any canonical split of length 2 (the reconcile loop drops the smallest part and asks again) -- did not finish in 1500 s: after the first pop the Vec length is path dependent","bounds":"split length 2; as above","assume":"stub: unconstrained_split by its guarantee","covers":5,"t":2400,"stub":true}
+//@ {"p":"C16","tier":"experimental","clause":"same over any canonical split of length 2 (the reconcile loop drops the smallest part and asks again) -- did not finish in 1500 s: after the first pop the Vec length is path dependent","bounds":"split length 2; as above","assume":"stub: unconstrained_split by its guarantee","covers":5,"t":2400,"stub":true,"replay":"model"}
 plan_cap!(c16_plan_len2, 2, split_stub_len2, 1_000_000, 1 << 20, 5);
-//@ {"p":"C16","tier":"quick","clause":"same for the empty split: an empty plan, change == balance, the oracle is never asked","bounds":"split length 0","assume":"stub: unconstrained_split returns the empty list","covers":1,"t":900,"stub":true}
+//@ {"p":"C16","tier":"quick","clause":"same for the empty split: an empty plan, change == balance, the oracle is never asked","bounds":"split length 0","assume":"stub: unconstrained_split returns the empty list","covers":1,"t":900,"stub":true,"replay":"model"}
 plan_cap!(c16_plan_len0, 0, split_stub_len0, 1_000_000, 1 << 20, 3);
-//@ {"p":"C16","tier":"experimental","clause":"same over any canonical split of length 3","bounds":"split length 3; as above","assume":"stub: unconstrained_split by its guarantee","covers":5,"t":7200,"stub":true}
+//@ {"p":"C16","tier":"experimental","clause":"same over any canonical split of length 3","bounds":"split length 3; as above","assume":"stub: unconstrained_split by its guarantee","covers":5,"t":7200,"stub":true,"replay":"model"}
 plan_cap!(c16_plan_len3, 3, split_stub_len3, 1_000_000, 1 << 20, 6);
-//@ {"p":"C16","tier":"thorough","clause":"same, length 1 with an unrestricted preparation fee","bounds":"split length 1; fee in [0,MAX_MONEY]","assume":"stub: unconstrained_split by its guarantee","covers":4,"t":3600,"stub":true}
+//@ {"p":"C16","tier":"thorough","clause":"same, length 1 with an unrestricted preparation fee","bounds":"split length 1; fee in [0,MAX_MONEY]","assume":"stub: unconstrained_split by its guarantee","covers":4,"t":3600,"stub":true,"replay":"model"}
 plan_cap!(c16_plan_len1_anyfee, 1, split_stub_len1, MAX_MONEY, 1 << 20, 4);
 
 //@ {"p":"C16","tier":"quick","clause":"an over-charging oracle cannot make the planner panic or mis-account: for ANY answer n (up to usize::MAX), plan_denominations returns a plan; if the part survives, the reserved fees are exactly n x fee (no wrap-around) and notes + fees + change == balance","bounds":"real planner, no stub; balance 1.02015 ZEC, buffer 15000, fee 10000, cap 1, two spendable notes (all concrete so that the split has a concrete length); the oracle's answer is an arbitrary Option<usize>","covers":2,"t":900}
